@@ -6,6 +6,8 @@ def explore(run, lean):
     quick = run.tier == "quick"
     text_corr.explore_strip(run, 300 if quick else 6000)
     run.extra["rule"] = ("(a) traces in the library format with random names/timestamps, canonical and perturbed (blank lines, surrounding blanks/tabs, \\r\\n, doubled newlines); (b) strings assembled from fragments around the regex corner cases; (c) single-line probes; every result compared with the Lean stripped()")
+    ROUND6_RULE = '; chart names in other scripts (non-ASCII digits, fullwidth punctuation); traces kept without their timestamps and stripped again'
+    run.extra["rule"] += ROUND6_RULE
 
 
 def replay(case):
